@@ -35,6 +35,7 @@ ANNOUNCE = {
     'h1:1+mcast': [(H1, 1), ('224.0.0.1', 2)],      # (a multicast address: the kernel refuses the dial synchronously)
 }
 _W = {}
+QUICK = [False]
 
 
 def setup_worker():
@@ -143,7 +144,7 @@ class World:
         return [c for c in self.conns if c['open']]
 
     def events(self):
-        ev = [('tick', d) for d in DELTAS]
+        ev = [('tick', d) for d in DELTAS if not (QUICK[0] and d == 40)]      # (40 = 20 + 20 in the quick tier)
         oc = self.open_conns()
         if len(oc) < 3:
             for h in (H1, H2):
@@ -373,6 +374,7 @@ def run(ctx):
     for key, what, _ in bad2:
         ctx.violation(key, what, {'part': 2})
     setup_worker()
+    QUICK[0] = ctx.quick
     depth = 5 if ctx.quick else 6
     seen = set()
     frontier = []
@@ -387,6 +389,9 @@ def run(ctx):
     for d in range(depth):
         if d >= pdepth:
             frontier = [f for f in frontier if f[0] not in PREFIX_EVENTS]
+        if ctx.quick and d >= depth - 1:
+            # quick tier: the last level only from three of the six initial books
+            frontier = [f for f in frontier if f[0] in ('empty', 'one', 'one-failed-thrice')]
         if ctx.seed:
             import random
             random.Random(ctx.seed + d).shuffle(frontier)
